@@ -282,6 +282,8 @@ template <typename A, typename ...R> inline void collectMut(MutInts & m, A && a,
 struct CallbackSink
 {
 	virtual void onCall(int cbId, const ArgPack & args, MutInts & mut) = 0;
+	// the library is copying callback cbId (user code running INSIDE append/insert/copy...): a driver may act from here
+	virtual void onCopy(int /*cbId*/) {}
 	virtual ~CallbackSink() {}
 };
 inline CallbackSink *& callbackSink() { static CallbackSink * s = nullptr; return s; }
@@ -298,7 +300,7 @@ struct TCallback
 	int tag; // free for drivers (e.g. which prototype it was created for)
 
 	explicit TCallback(int id, int tag_ = 0) : c(id), tag(tag_) {}
-	TCallback(const TCallback & o) : c((faultPoint(F_CB_COPY), o.c)), tag(o.tag) {}
+	TCallback(const TCallback & o) : c((faultPoint(F_CB_COPY), o.c)), tag(o.tag) { CallbackSink * s = callbackSink(); if(s) s->onCopy(c.id); }
 	TCallback(TCallback && o) noexcept : c(std::move(o.c)), tag(o.tag) {}
 	TCallback & operator = (const TCallback & o) { faultPoint(F_CB_COPY); c = o.c; tag = o.tag; return *this; }
 	TCallback & operator = (TCallback && o) noexcept { c = std::move(o.c); tag = o.tag; return *this; }
